@@ -18,3 +18,9 @@ let () = register "wcap" (function
   | [algo; n; sk; k; er; m; e; m0] ->
       b01 (drv_within_capacity (ni algo) (ni n) (ni sk) (ni k) (ni er) (bytes_of_hex m) (bytes_of_hex e) (bytes_of_hex m0))
   | _ -> "ERR wcap")
+let () = register "facdec12" (function
+  | [n; sk; k; er; m; e; has; im; ie] ->
+      (match drv_facdec12 (ni n) (ni sk) (ni k) (ni er) (bytes_of_hex m) (bytes_of_hex e) (has = "1") (bytes_of_hex im) (bytes_of_hex ie) with
+       | Some (a, b) -> Printf.sprintf "S %s %s" (hex_of_bytes a) (hex_of_bytes b)
+       | None -> "N")
+  | _ -> "ERR facdec12")
